@@ -528,6 +528,9 @@ class Executor:
         if m:
             # tuple-struct constant `Name(c0, c1, ..)`: its fields (constants without the `const` keyword)
             return ("tuple", [self.const_val(x) for x in split_top(m.group(1))])
+        if re.search(r"::promoted\[\d+\]$", t):
+            # promoted constant: a `&'static` to data computed at compile time - opaque memory of its own
+            return ("ref", Place("*static:" + re.sub(r"\W+", "_", t)[-60:]))
         m = re.match(r"^\{(alloc\d+): &.*\}$", t)
         if m:
             return ("ref", Place("*static:" + m.group(1)))      # reference to a static: opaque memory of its own
